@@ -238,3 +238,73 @@ pub fn lin<T: HS>(cfg: &Cfg, out: &mut Out<T>) {
         out.fact("C01.lin_present", false, "coefficients absent".into());
     }
 }
+
+/// relpar (C11): the parallel flavour yields exactly what the sequential flavour yields, at construction,
+/// after a further parameter update, and after conversion to the sequential type.
+pub fn relpar<T: HS>(cfg: &Cfg, out: &mut Out<T>) {
+    let mrhs = cfg.usize("mrhs", 0) == 1;
+    let inp = make_inputs::<T>(cfg, out, 2);
+    set_plants(&inp.plants);
+    let p = inp.p;
+    let deriv_fail = cfg.opt_usize("deriv_fail");
+    let mk = || {
+        let mut states = inp.states.clone();
+        if let Some(k) = deriv_fail {
+            states[1].deriv_fails = Some(k);
+        }
+        StubModel { params: inp.alphas[0].clone(), states, cur: 0, script: vec![Step::To(0), Step::To(1)], calls: 0, nparams: p }
+    };
+    macro_rules! both {
+        ($seq:ident, $par:ident, $yarg:expr) => {{
+            let build = |par: bool| -> (Option<Obs<T>>, Option<Obs<T>>, Option<Obs<T>>, DVector<T>) {
+                macro_rules! run {
+                    ($ctor:ident) => {{
+                        let mut b = LevMarProblemBuilder::$ctor(mk()).observations($yarg);
+                        if let Some(w) = &inp.w {
+                            b = b.weights(w.clone());
+                        }
+                        if let Some(e) = inp.eps {
+                            b = b.epsilon(e);
+                        }
+                        match b.build() {
+                            Err(_) => (None, None, None, DVector::from_vec(vec![])),
+                            Ok(mut pr) => {
+                                let read = |pr: &dyn Fn() -> Obs<T>| pr();
+                                let o0 = Obs { c: pr.linear_coefficients().map(|c| DMatrix::from_iterator(c.nrows(), c.ncols(), c.iter().cloned())), r: pr.residuals(), j: pr.jacobian() };
+                                pr.set_params(&inp.alphas[1]);
+                                let o1 = Obs { c: pr.linear_coefficients().map(|c| DMatrix::from_iterator(c.nrows(), c.ncols(), c.iter().cloned())), r: pr.residuals(), j: pr.jacobian() };
+                                let params = pr.params();
+                                let sq = pr.into_sequential();
+                                let o2 = Obs { c: sq.linear_coefficients().map(|c| DMatrix::from_iterator(c.nrows(), c.ncols(), c.iter().cloned())), r: sq.residuals(), j: sq.jacobian() };
+                                let _ = read;
+                                (Some(o0), Some(o1), Some(o2), params)
+                            }
+                        }
+                    }};
+                }
+                if par {
+                    run!($par)
+                } else {
+                    run!($seq)
+                }
+            };
+            (build(false), build(true))
+        }};
+    }
+    let yv = DVector::from_iterator(inp.n, inp.y.column(0).iter().cloned());
+    let (s, q) = if mrhs { both!(mrhs, mrhs_parallel, inp.y.clone()) } else { both!(new, new_parallel, yv.clone()) };
+    match (s, q) {
+        ((Some(s0), Some(s1), Some(s2), sp), (Some(q0), Some(q1), Some(q2), qp)) => {
+            compare("C11.parallel_equals_sequential@build", &q0, &s0, out);
+            compare("C11.parallel_equals_sequential@update", &q1, &s1, out);
+            compare("C11.into_sequential_preserves_state", &q2, &q1, out);
+            compare("C11.into_sequential_preserves_state", &s2, &s1, out);
+            out.fact("C11.presence", q1.c.is_some() == s1.c.is_some() && q1.j.is_some() == s1.j.is_some() && q0.j.is_some() == s0.j.is_some(), "presence of outputs differs between the flavours".into());
+            out.fact("C11.expected_presence", s0.c.is_some() && s1.c.is_some() && (s1.j.is_some() == deriv_fail.is_none()), "unexpected presence pattern".into());
+            for k in 0..p {
+                out.eq("C11.params", format!("params[{k}]"), qp[k], sp[k]);
+            }
+        }
+        _ => out.fact("C11.build_ok", false, "one of the flavours failed to build".into()),
+    }
+}
